@@ -36,9 +36,9 @@ func TestSmoke(t *testing.T) {
 		rq := NewReq(kidx["deflate.decoder"], zb.Bytes(), 20, 1).Init(0, 0, 0, 0).PureProbe(true)
 		switch mode {
 		case 1:
-			rq.Src(1, 1, true, true, nil).Dst(2, 0, 7, 0xAA)
+			rq.Src(1, 1, true, true, nil).Dst(2, 0, 7, 0xAA, false)
 		case 2:
-			rq.Src(2, 0, true, false, []uint32{3, 1, 100}).Dst(1, 1<<20, 13, 0)
+			rq.Src(2, 0, true, false, []uint32{3, 1, 100}).Dst(1, 1<<20, 13, 0, false)
 		}
 		rq.Drive(1 << 20)
 		r, err := p.Run(rq.Bytes())
